@@ -548,6 +548,14 @@ def tbinop(op, a, b):
             y = cast_scalar(y, INT)
         return binop(op, x, y)
 
+    if dtype == BOOL and isinstance(a, STensor) and isinstance(b, (int, float)) and not isinstance(b, bool):
+        # comparing the same (unmodified) tensor with the same constant gives the same mask
+        # object, hence -- as in torch/numpy -- the same enumeration when it is used to select
+        key = (op, b, getattr(a.owner(), "version", 0))
+        cache = a.__dict__.setdefault("_cmp_cache", {})
+        if key not in cache:
+            cache[key] = elementwise(f, a, b, dtype=dtype)
+        return cache[key]
     return elementwise(f, a, b, dtype=dtype)
 
 
